@@ -421,9 +421,10 @@ def evo_member_conversion(ctx) -> None:
     rule = "C10.aggregate"
     v = ctx.prog.require_func("prepare_evo_aspirate_dispense_parameters", rule)
     fv = ctx.fv(v)
-    rets = [fv.def_expr(n.ast.value, n.id)[0] for n in fv.return_nodes()]
+    rn_ = fv.return_nodes()
+    rets = [fv.def_expr(n.ast.value, n.id)[0] for n in rn_]
     rets = [r for r in rets if isinstance(r, ast.Tuple) and len(r.elts) == 5]
-    tips_var = getattr(rets[0].elts[4], "id", None) if rets else None
+    tips_var = getattr(fv.alias_root(rets[0].elts[4], rn_[0].id), "id", None) if rets else None
     apps = [cs for cs in fv.calls() if isinstance(cs.call.func, ast.Attribute) and cs.call.func.attr == "append" and is_name(cs.call.func.value, tips_var) and len(cs.call.args) == 1]
     if tips_var is None or len(apps) != 1:
         ctx.rep.inconclusive(rule, f"{v.qualname}/member-conversion", "conversion loop of the tips not found", where=v.where())
